@@ -170,7 +170,7 @@ impl QGramIndex {
 
         for (i, qgram) in self.ranks.qgrams(self.q, pattern).enumerate() {
             for &p in self.qgram_matches(qgram) {
-                let diagonal = p as i32 - i as i32;
+                let diagonal = p as isize - i as isize;
                 match diagonals.entry(diagonal) {
                     Entry::Vacant(v) => {
                         v.insert(ExactMatch {
